@@ -115,7 +115,9 @@ public:
 		for(size_t i = 0; i < _length; i++) {
 			if(!(_pointer[i] >= '0' && _pointer[i] <= '9'))
 				return null_opt;
-			value = value * 10 + (_pointer[i] - '0');
+			if(__builtin_mul_overflow(value, T(10), &value)
+					|| __builtin_add_overflow(value, T(_pointer[i] - '0'), &value))
+				return null_opt;
 		}
 		return value;
 	}
